@@ -385,8 +385,20 @@ func (e *Exec) run() {
 				// value holding a copy of the receiver
 				switch reprOf(r.Type()) {
 				case rStruct, rSlice:
+					// the interface may hold the value itself or a pointer to it (both method sets contain
+					// a value-receiver method): the dynamic type is T or *T, the object's fields are the receiver's
 					bc := e.newCell("recv$boxed", types.NewInterfaceType(nil, nil))
-					st.store[bc] = e.box(st, st.store[rc], types.NewInterfaceType(nil, nil))
+					ref := e.freshRef(st, "recvbox")
+					if interiorTypes[typeKey(r.Type())] {
+						// objects of an interior type live in backing arrays: a one-element array holds the copy
+						ml := &MemLoc{Fam: memFamily(r.Type()), Arr: ref, Idx: tZero, Typ: r.Type()}
+						e.storeLoc(st, ml, st.store[rc])
+						ref = ptrTerm(ml)
+					} else {
+						e.storeLoc(st, &HeapLoc{Fam: heapFamily(r.Type()), Ref: ref, Typ: r.Type()}, st.store[rc])
+					}
+					st.assume(mkOr(mkEq(dynType(ref), typeIdTerm(r.Type())), mkEq(dynType(ref), typeIdTerm(types.NewPointer(r.Type())))))
+					st.store[bc] = Scalar{ref, types.NewInterfaceType(nil, nil)}
 					e.altRecv = bc
 				}
 			}
